@@ -670,6 +670,11 @@ class Cov(SingleAggregation):
     def combine_kwargs(self) -> dict:
         return {"levels": self.levels}
 
+    def _simplify_up(self, parent, dependents):
+        # The pairwise result has one row per input column in every group, so
+        # dropping input columns would drop rows of the selected columns
+        return
+
 
 class Corr(Cov):
     std = True
